@@ -4,6 +4,7 @@ import (
 	"fmt"
 	"os"
 	"sort"
+	"strconv"
 	"strings"
 
 	"github.com/btcsuite/btcd/blockchain"
@@ -235,6 +236,31 @@ func execChain(c cfg, ops []string) string {
 				}
 			}
 			out = append(out, fmt.Sprintf("d=%s;m=%d", r.absEntries(rows, false), mid))
+		case 'X', 'Y':
+			// unclean shutdown: the chain object (cache included) is dropped without a flush and a
+			// new one is started on the same database with a possibly different cache size; Y starts
+			// it with the interrupt already requested, so the replay stops after its first block
+			size, err := strconv.ParseUint(op[1:], 10, 64)
+			if err != nil {
+				return "bad-op"
+			}
+			c.cache = size
+			var intr chan struct{}
+			if op[0] == 'Y' {
+				intr = make(chan struct{})
+				close(intr)
+			}
+			ch, err := blockchain.New(&blockchain.Config{
+				DB: r.in.db, ChainParams: r.b.params, TimeSource: blockchain.NewMedianTime(),
+				UtxoCacheMaxSize: size, Interrupt: intr,
+			})
+			if err != nil {
+				r.in.chain = nil
+				out = append(out, "int")
+				continue
+			}
+			r.in.chain = ch
+			out = append(out, "ok")
 		case 'R':
 			// graceful restart: flush, drop the chain object, load everything back from the database
 			if err := r.in.chain.FlushUtxoCache(blockchain.FlushRequired); err != nil {
@@ -262,9 +288,17 @@ func execChain(c cfg, ops []string) string {
 				out = append(out, "err")
 				continue
 			}
-			lf, _ := r.in.chain.VerifC03LastFlushHash()
-			out = append(out, fmt.Sprintf("c=%s;d=%s;l=%d", r.absEntries(r.in.chain.VerifC03CacheDump(), true),
-				r.absEntries(rows, false), r.b.blkID[lf]))
+			lf, marker := r.in.chain.VerifC03LastFlushHash()
+			mid := -1
+			if len(marker) == chainhash.HashSize {
+				var h chainhash.Hash
+				copy(h[:], marker)
+				if id, ok := r.b.blkID[h]; ok {
+					mid = id
+				}
+			}
+			out = append(out, fmt.Sprintf("c=%s;d=%s;l=%d;m=%d", r.absEntries(r.in.chain.VerifC03CacheDump(), true),
+				r.absEntries(rows, false), r.b.blkID[lf], mid))
 		default:
 			return "bad-op"
 		}
